@@ -145,6 +145,11 @@ func workerRun(p *Program, job *Job) {
 		if c == nil {
 			continue
 		}
+		if dp := os.Getenv("VERIF_DUMP_CASE"); dp != "" {
+			// debugging aid: the generated case, before it is evaluated
+			b, _ := json.MarshalIndent(c, "", " ")
+			os.WriteFile(dp, b, 0o644)
+		}
 		send(Msg{T: "start", I: i})
 		env.Stats.Evaluations++
 		apiSeq = 0
